@@ -703,8 +703,14 @@ impl Blockchain {
 
     fn remove_block_transactions(&self, block_hash: &SaitoHash, mempool: &mut Mempool) {
         let utxo_map = &mut mempool.utxo_map;
+        // the earliest block a pooled transaction can still enter is the one after the tip :
+        // inputs which leave the retention window with that block make it invalid for good
+        // (same rule as in transaction.validate() and block.validate())
+        let oldest_spendable_block_id =
+            (self.get_latest_block_id() + 1).saturating_sub(self.genesis_period);
         mempool.transactions.retain(|_, tx| {
-            let keep = tx.validate_against_utxoset(&self.utxoset);
+            let keep = tx.validate_against_utxoset(&self.utxoset)
+                && tx.spends_only_outputs_created_since(oldest_spendable_block_id);
             if !keep {
                 // release the inputs reserved by the dropped transaction
                 for input in tx.from.iter() {
